@@ -15,6 +15,8 @@ with tempfile.TemporaryDirectory() as td:
         cmd += ["-n", jobs]
     env = dict(os.environ)
     env.pop("STREAMFLOW_VERIF", None)
+    if "--isolate" in sys.argv:
+        env["HOME"] = td  # the suite shares ~/.streamflow/<version>/sqlite.db: isolate from concurrent runs
     r = subprocess.run(cmd, cwd=repo, env=env, stdout=subprocess.PIPE, stderr=subprocess.STDOUT, text=True)
     passed = set()
     for tc in ET.parse(xml).getroot().iter("testcase"):
